@@ -4,11 +4,11 @@
    behaviour depends on the pieces only through their sizes. *)
 From Verif Require Import Lib.Base Lib.Sx Lib.Err Lib.IO Proofs.FaultsIO.
 From Verif Require Import Model.RtmpChunk Proofs.RtmpChunk Proofs.RtmpChunkRT.
-From Verif Require Model.Faults Proofs.Faults Proofs.FaultsRtmpG Proofs.FaultsWrite Proofs.FaultsBufw Proofs.FaultsBufwSim Proofs.FaultsLens.
+From Verif Require Model.Faults Proofs.Faults Proofs.FaultsRtmpG Proofs.FaultsWrite Proofs.FaultsBufw Proofs.FaultsBufwPeer Proofs.FaultsLens.
 Module MFa := Verif.Model.Faults.
 Module PG := Verif.Proofs.FaultsRtmpG.
 Module PB := Verif.Proofs.FaultsBufw.
-Module PS := Verif.Proofs.FaultsBufwSim.
+Module PS := Verif.Proofs.FaultsBufwPeer.
 Open Scope N_scope.
 
 (* ---------- the pieces of one message ---------- *)
@@ -93,7 +93,7 @@ Proof.
   destruct (MFa.rtmp_write_ops ops (bufw_new wf) 0) as [[n oe] b]. destruct S2 as [Hn He].
   split; [exact Hmap|]. split; [exact S1|]. split; [exact Hn|].
   destruct oe as [e|].
-  - split; [discriminate|lia].
+  - split; [discriminate|]. destruct He as (_ & L & _). lia.
   - split; [intros _|reflexivity]. destruct He as (_ & _ & _ & (_ & _ & E & L & _)). lia.
 Qed.
 
